@@ -18,7 +18,8 @@ def _concrete_dists(W):
 
 
 ENTRY_POINTS = ["empi_dists_sequence_from_prob_dists", "empi_dist_sequence_from_prob_dist", "data_from_prob_dist", "dataset_from_prob_dists",
-                "Experiment.generate_empi_dists_sequence", "Experiment.generate_data", "StandardQst.generate_empi_dists", "StandardQst.generate_empi_dist",
+                "Experiment.generate_empi_dists_sequence", "Experiment.generate_data", "Experiment.generate_dataset", "Experiment.generate_empi_dist_sequence",
+                "StandardQst.generate_empi_dists", "StandardQst.generate_empi_dist",
                 "StandardQst.generate_empi_dists_sequence", "StandardPovmt.generate_empi_dists", "StandardQpt.generate_empi_dists", "StandardQmpt.generate_empi_dists"]
 
 
@@ -41,6 +42,10 @@ def make_call(W, entry):
                                                                schedules=[[("state", 0), ("povm", j)] for j in range(3)], seed_data=5)
         if entry.endswith("generate_data"):
             return lambda s: exp.generate_data(2, 2, s)
+        if entry.endswith("generate_dataset"):
+            return lambda s: exp.generate_dataset([1, 1, 1], s)
+        if entry.endswith("generate_empi_dist_sequence"):
+            return lambda s: exp.generate_empi_dist_sequence(1, [10, 20], s)
         return lambda s: exp.generate_empi_dists_sequence([[10, 10, 10], [20, 20, 20]], s)
     cls = entry.split(".")[0]
     true_state = states[1]
@@ -264,6 +269,13 @@ def _routing_case(W, entry, scale):
     return (lambda s: qt.generate_empi_dists_sequence(obj, sizes, s)), [((k, j), sizes[k], ps[j]) for k in range(2) for j in range(J)]
 
 
+def SC_same(a, b):
+    from qverif.symtwin import scalar as SC
+    a = a if isinstance(a, SC.Sym) else SC.Sym.const(a)
+    b = b if isinstance(b, SC.Sym) else SC.Sym.const(b)
+    return a.same(b)
+
+
 def _at(x, pos):
     for i in pos:
         x = x[i]
@@ -301,17 +313,25 @@ class SampleRouting(E2Contract):
             symrandom.reset()
             res = f(7)
             log = {(e[0], e[1]): e for e in symrandom.DRAW_LOG if e[2] == "multinomial"}
-            labels, drawn_n, drawn_p, want_n, want_p = [], [], [], [], []
+            labels, drawn_n, drawn_p, want_n, want_p, counts_ok = [], [], [], [], [], []
             for pos, n, p in expected:
                 lab, dist = _at(res, pos)
                 tags = symrandom.draw_tags(dist)
                 e = log.get(next(iter(tags))) if len(tags) == 1 else None
+                if e is not None:
+                    # dist * label must be exactly the vector of multinomial counts of that draw
+                    cnt = [symrandom._draw_symbol(e[0], e[1], k, "multinomial") for k in range(e[3])]
+                    scaled = (dist * lab).a.reshape(-1).tolist()
+                    counts_ok.append(len(scaled) == len(cnt) and all(SC_same(a, b) for a, b in zip(scaled, cnt)))
+                else:
+                    counts_ok.append(False)
                 labels.append(lab)
                 drawn_n.append(e[4] if e else None)
                 drawn_p.append(list(e[5]) if e else None)
                 want_n.append(n)
                 want_p.append(list(W.np.asarray(p).a.reshape(-1).tolist()) if hasattr(W.np.asarray(p), "a") else list(p))
-            return dict(labels=labels, drawn_n=drawn_n, drawn_p=drawn_p, want_n=want_n, want_p=want_p, n_draws=len(log), n_expected=len(expected))
+            return dict(labels=labels, drawn_n=drawn_n, drawn_p=drawn_p, want_n=want_n, want_p=want_p, n_draws=len(log), n_expected=len(expected),
+                        counts_ok=counts_ok)
         import numpy
         f, expected = _routing_case(W, cfg, 2000)
         res = f(7)
@@ -325,11 +345,14 @@ class SampleRouting(E2Contract):
             drawn.append(int(lab) if (numpy.all(numpy.abs(counts - numpy.round(counts)) < 1e-6) and abs(counts.sum() - float(lab)) < 1e-6) else -1)
             p = numpy.asarray(p, dtype=float)
             ok_p.append(bool(numpy.all(numpy.abs(numpy.asarray(dist, dtype=float) - p) <= 6.0 * numpy.sqrt(p * (1 - p) / n) + 1e-9)))
-        return dict(labels=labels, drawn_n=drawn, drawn_p=ok_p, want_n=want_n, want_p=[True] * len(ok_p), n_draws=len(expected), n_expected=len(expected))
+        return dict(labels=labels, drawn_n=drawn, drawn_p=ok_p, want_n=want_n, want_p=[True] * len(ok_p), n_draws=len(expected), n_expected=len(expected),
+                    counts_ok=[d != -1 for d in drawn])
 
     def post(self, W, cfg, inp, out):
         return [eq("attached-size==requested-size", out["labels"], out["want_n"], "the sample size attached to each empirical distribution is the one requested for that position"),
                 eq("drawn-with-the-requested-size", out["drawn_n"], out["want_n"], "each distribution is drawn with its requested number of samples"),
                 eq("drawn-from-its-own-schedule", out["drawn_p"], out["want_p"],
                    "each distribution is drawn from the probability vector of ITS schedule (natively: within 6 standard errors at 2000 x the sample size)"),
-                eq("one-draw-per-requested-distribution", out["n_draws"], out["n_expected"], "exactly one multinomial draw per returned distribution")]
+                eq("one-draw-per-requested-distribution", out["n_draws"], out["n_expected"], "exactly one multinomial draw per returned distribution"),
+                eq("distribution==counts/attached-size", out["counts_ok"], [True] * len(out["counts_ok"]),
+                   "every returned distribution times its attached sample size is the vector of counts of its draw (whole numbers summing to that size)")]
